@@ -11,7 +11,7 @@ ID = "C16"
 OPT_QUICK_ALL = True      # every partition also in a child interpreter started with -O
 LEVEL = "model_checking"
 TECHNIQUE = "explicit enumeration of all attach / re-attach histories (bounded length) over simulated targets of every peripheral device type and qualifier on both transports, judged by a device-type -> command-set reference table and a differential comparison with a fresh facade"
-RULE = ("depth 1: all 32 peripheral device types x 8 qualifiers x {SG_IO, iSCSI} x {SCSI(dev), facade(dev) re-attach}; all 32 types x attach made from an except block / a finally block during propagation / a generator resumed by throw() (first attach and re-attach); all 32 types x every single bit of INQUIRY bytes 1-7 and 56 set (the selection may depend on the device type only); histories: all sequences of "
+RULE = ("depth 1: all 32 peripheral device types x 8 qualifiers x {SG_IO, iSCSI} x {SCSI(dev), facade(dev) re-attach}; all 32 types x attach made from an except block / a finally block during propagation / a generator resumed by throw() (first attach and re-attach); all 32 types x ADDITIONAL LENGTH {00,1F,5A,5B,5C,9F,FF} (first attach and re-attach); all 32 types x every single bit of INQUIRY bytes 1-7 and 56 set (the selection may depend on the device type only); histories: all sequences of "
         "length <= 3 over device types {00,01,03,04,05,07,08,0E,1F} (9^1+9^2+9^3 per transport, mixing transports at the second step), "
         "first step by construction, later steps by calling the same facade; every history of length 2-3 also with one earlier attach refused by its device (CHECK CONDITION / BUSY to the INQUIRY): it fails and the following attaches are judged as usual. all 32 types x 5 previous sets on a device object that logs every assignment to .opcodes (the set changes in one step, no transient other set). states = distinct (facade device, per-device command set) "
         "configurations; transitions = attach events. Non-trivial = history has a re-attach or a type other than 00.")
@@ -279,6 +279,10 @@ def run_partition(part, tier, seed):
                 for bit in range(8):
                     do([(tr, dtype, 0, {byte: 1 << bit})])
             do([(tr, dtype, 0, {1: 0xFF, 2: 0xFF, 3: 0xFF, 5: 0xFF, 6: 0xFF, 7: 0xFF, 56: 0xFF})])
+            # ... nor does the ADDITIONAL LENGTH the device reports (less, exactly, or more data than the facade asked for)
+            for al in (0x00, 0x1F, 0x5A, 0x5B, 0x5C, 0x9F, 0xFF):
+                do([(tr, dtype, 0, {4: al})])
+                do([(tr, 0x01, 0), (tr, dtype, 0, {4: al})])
             do([(tr, 0x08, 0), (tr, dtype, 0, {6: 0x08, 5: 0x80})])
             # the caller's own situation does not matter: attach made from an except block, a finally block, a generator resumed by throw()
             for ctx in (1, 2, 3):
